@@ -66,7 +66,7 @@ Proof.
   - unfold hrel. cbn [g_in g_next g_hook]. repeat split; assumption.
   - unfold hrel. cbn [g_in g_next g_hook]. repeat split; assumption.
   - unfold hrel, set_subs. cbn [g_in g_next g_hook]. repeat split; assumption.
-  - unfold feed_rtp, hrel. cbn [g_in g_next g_hook]. repeat split; assumption.
+  - unfold feed_rtp, feed_rtp_gen, hrel. cbn [g_in g_next g_hook]. repeat split; assumption.
   - unfold hrel. cbn [g_in g_next g_hook hs_in hs_n hs_hook]. rewrite Hin, Hh. repeat split; assumption.
 Qed.
 
@@ -183,7 +183,7 @@ Proof.
   - unfold trel. cbn [g_in g_next_ts g_next_pat g_trec tp_in tp_ts tp_pat tp_rec]. rewrite Hin, Hp, Hr. repeat split; try assumption; congruence.
   - unfold trel. cbn [g_in g_next_ts g_next_pat g_trec]. repeat split; assumption.
   - unfold trel, set_subs. cbn [g_in g_next_ts g_next_pat g_trec]. repeat split; assumption.
-  - unfold feed_rtp, trel. cbn [g_in g_next_ts g_next_pat g_trec]. repeat split; assumption.
+  - unfold feed_rtp, feed_rtp_gen, trel. cbn [g_in g_next_ts g_next_pat g_trec]. repeat split; assumption.
   - unfold trel. cbn [g_in g_next_ts g_next_pat g_trec tp_in tp_ts tp_pat tp_rec]. repeat split; assumption.
 Qed.
 
